@@ -40,6 +40,7 @@ Pool ==
     \* step env entry versus pipeline env entry of the same name
     With(Base, "env", E(FALSE, ("A" :> "1"))), [Base EXCEPT !.penv = ("A" :> "1")],
     [With(Base, "env", E(FALSE, ("A" :> "1"))) EXCEPT !.penv = ("A" :> "pa")],          \* shadowed: same as the step-env-only one
+    [With(Base, "env", E(FALSE, ("A" :> "1"))) EXCEPT !.penv = ("A" :> "1")],           \* shadowed by the SAME value: still shadowed
     [Base EXCEPT !.penv = ("A" :> "1") @@ ("B" :> "2")], [Base EXCEPT !.penv = ("A" :> "12") @@ ("B" :> "")], [Base EXCEPT !.penv = ("B" :> "2")],
     \* names that differ only in case are different variables: a step variable A does not shadow the pipeline's a
     [With(Base, "env", E(FALSE, ("A" :> "1"))) EXCEPT !.penv = ("a" :> "p1")], [With(Base, "env", E(FALSE, ("A" :> "1"))) EXCEPT !.penv = ("a" :> "p2")],
@@ -55,6 +56,8 @@ Pool ==
     With(Base, "env", E(FALSE, ("env::A" :> "1"))), With(Base, "env", E(FALSE, (":A" :> "1"))),
     \* nil versus empty containers INSIDE a matrix with named dimensions (the list shortcut of a simple matrix does not apply)
     With(Base, "matrix", "setup_os"), With(Base, "matrix", "setup_os_eadj"), With(Base, "matrix", "setup_os_erem"), With(Base, "matrix", "adj_base_erem"),
+    \* a matrix without dimensions whose one adjustment only says skip: true / false / a reason / no matrix at all are four contents
+    With(Base, "matrix", "skiponly_t"), With(Base, "matrix", "skiponly_f"), With(Base, "matrix", "skiponly_s"),
     \* a pipeline variable whose value is EMPTY is a signed variable like any other: present-and-empty, absent, and another name
     [Base EXCEPT !.penv = ("B" :> "")], [Base EXCEPT !.penv = ("C" :> "")], [Base EXCEPT !.penv = ("B" :> "") @@ ("C" :> "")],
     \* an empty mapping, an empty list and null nested inside a plugin config are different configs
